@@ -74,6 +74,8 @@ def run(chk):
             path = os.path.join(sc.dir, "beh_%s.json" % cfg)
             const = SIMCONST[cfg]
             json.dump(dict(behaviours=behs, rdiv=4.0, **const), open(path, "w"))
+            from checks import c06_trace as _t
+            _t.asan_behaviours(chk, sc, cfg, behs, const)
             r = run_py(sc, ["-m", "harness.replay_heap", path], timeout=1800)
             if r.returncode != 0:
                 chk.machinery("replay_heap crashed: " + r.stderr[-1500:])
@@ -85,6 +87,8 @@ def run(chk):
             chk.notes.setdefault("replayed_op_kinds", {})[cfg] = summ["kinds"]
             if chk.samples == [] and behs:
                 chk.sample(dict(config=cfg, behaviour_prefix=[b["op"] for b in behs[0][:8]]))
+            for d in summ.get("drift", []):
+                chk.notes.setdefault("transcription_drift", []).append("%s: behaviour %d step %d: %s" % (cfg, d["behaviour"], d["step"], d["what"]))
             for f in summ["fails"]:
                 chk.violation("replay:%s:%s" % (cfg, f["what"]),
                               "real scheduler diverges from Heap.tla behaviour at step %d: %s" % (f["step"], f["what"]),
